@@ -367,6 +367,19 @@ def _step(ctx, cls):
             raise AnalysisError(f"{cls}.simulate: expected one linear solve per step, found {len(sol)}")
         A, b = solver_inputs(sol[0])
         stale = sorted({s_ for v in (A, b) if v is not None for s_ in nf.symbols(it.to_nf(v)) if s_.endswith("@carried")})
+        # a matrix name that is bound only inside the time loop, under a condition, and read on a partition that did not
+        # bind it in this iteration: what the solver receives is what an earlier iteration left in that name
+        from ..values import ExtV as _ExtV
+        import ast as _ast
+
+        if not stale and isinstance(A, _ExtV) and A.qual.isidentifier():
+            fn_ = ctx.P.functions.get(getattr(sol[0], "func", None)) or f
+            bound_in_loop = any(
+                isinstance(n_, _ast.Name) and isinstance(n_.ctx, _ast.Store) and n_.id == A.qual
+                for lp in _ast.walk(fn_.node) if isinstance(lp, (_ast.For, _ast.While)) for st_ in lp.body for n_ in _ast.walk(st_)
+            )
+            if bound_in_loop:
+                stale = [A.qual + "@carried"]
         if stale:
             # the system handed to the solver was left over by the previous iteration of the time loop
             tag = ", ".join(("" if c else "not ") + d[:60] for _k, c, d in p.decisions if not d.startswith("hasattr"))
